@@ -280,7 +280,7 @@ func SortedKeys[M ~map[K]V, K comparable, V any](m M) []K {
 		keys = append(keys, k)
 	}
 	sort.Slice(keys, func(i, j int) bool { return fmt.Sprintf("%#v", keys[i]) < fmt.Sprintf("%#v", keys[j]) })
-	return keys
+	return orderKeys(keys)
 }
 
 // SortedIntKeys is SortedKeys for maps keyed by an integer type (no formatting needed).
@@ -290,7 +290,7 @@ func SortedIntKeys[M ~map[K]V, K ~int | ~int8 | ~int16 | ~int32 | ~int64 | ~uint
 		keys = append(keys, k)
 	}
 	sort.Slice(keys, func(i, j int) bool { return keys[i] < keys[j] })
-	return keys
+	return orderKeys(keys)
 }
 
 // SortedStringKeys is SortedKeys for maps keyed by a string type.
@@ -300,5 +300,5 @@ func SortedStringKeys[M ~map[K]V, K ~string, V any](m M) []K {
 		keys = append(keys, k)
 	}
 	sort.Slice(keys, func(i, j int) bool { return keys[i] < keys[j] })
-	return keys
+	return orderKeys(keys)
 }
